@@ -32,7 +32,7 @@ def run_scenario(sc, patch=None):
     async def main():
         w = World(cfg["n"], ext=set(cfg.get("ext", ())), classic=cfg.get("classic", False), seed=cfg.get("seed", 0),
                   hci_delay=cfg.get("hci_delay", 0.0), link_delay=cfg.get("link_delay", 0.0),
-                  same_bytes=cfg.get("same_bytes", False), patch=patch, slow=cfg.get("slow"))
+                  same_bytes=cfg.get("same_bytes", False), patch=patch, slow=cfg.get("slow"), vary_rsp=cfg.get("vary_rsp", False))
         out["events"] = w.events
         out["errors"] = w.errors
         await w.power_on()
@@ -133,8 +133,10 @@ def run_scenario(sc, patch=None):
 KINDS = ("pub", "rnd")
 
 
-def _cfg(n, ext=(), classic=False, seed=0, hci_delay=0.004, link_delay=0.0, same_bytes=False, slow=None):
+def _cfg(n, ext=(), classic=False, seed=0, hci_delay=0.004, link_delay=0.0, same_bytes=False, slow=None, vary_rsp=False):
     c = dict(n=n, ext=sorted(ext), classic=classic, seed=seed, hci_delay=hci_delay, link_delay=link_delay, same_bytes=same_bytes)
+    if vary_rsp:
+        c["vary_rsp"] = True
     if slow:
         c["slow"] = {str(k): list(v) for k, v in slow.items()}
     return c
@@ -251,6 +253,16 @@ def both_transports(variant, own, seed, **kw):
     return dict(name=f"both-transports:{variant}:{own}", cfg=_cfg(3, classic=True, seed=seed, slow=slow, **kw), ops=ops)
 
 
+def scan_rounds(mode, k, seed, **kw):
+    """3 advertises (legacy) in three rounds with different payloads - the second round has an EMPTY scan response -,
+    1 scans in `mode` all along: every round's reports carry that round's data"""
+    ops = [("scan", 1, mode)]
+    for _ in range(3):
+        ops += [("adv", 3, k, "legacy"), ("settle",), ("advstop", 3), ("settle",)]
+    ops += [("scan", 1, "off"), ("settle",)]
+    return dict(name=f"scan-rounds:{mode}:{k}", cfg=_cfg(3, (), seed=seed, vary_rsp=True, **kw), ops=ops)
+
+
 def scanning(mode, scanner_ext, k, flav, seed, **kw):
     """3 advertises (and scans), 1 scans in `mode`, 2 advertises with the other kind; nobody connects"""
     ext = ({1} if scanner_ext else set()) | ({3} if flav == "ext" else set())
@@ -311,6 +323,9 @@ def catalogue(quick, seed):
         for scanner_ext in (False, True):
             for k, flav in (("rnd", "legacy"), ("pub", "legacy"), ("pub", "ext")):
                 out.append(scanning(mode, scanner_ext, k, flav, s + 40))
+    out.append(scan_rounds("active", "rnd", s + 45))
+    out.append(scan_rounds("active", "pub", s + 46, hci_delay=0.0))
+    out.append(scan_rounds("passive", "rnd", s + 47))
     for own, k in (("rnd", "rnd"), ("pub", "pub"), ("rnd", "set")):
         out.append(reconnect(own, k, s + 50))
     for tr in ("le", "br"):
